@@ -54,6 +54,31 @@ Fixpoint remove_last (p : nat) (l : list nat) : list nat :=
   | x :: r => if mem p r then x :: remove_last p r else if x =? p then r else x :: r
   end.
 
+(** Exporters and span processors (configuration vocabulary). *)
+Inductive xk := XNil | XStd | XMem.   (* nil exporter / stock stdout exporter writing to a buffer / in-memory *)
+Inductive pk := PCount | PSimple (x : xk) | PBatch (x : xk).   (* counting only / simple / batch processor *)
+
+(** Does processor kind [k] own an exporter that can be shut down? *)
+Definition has_x (k : pk) : bool :=
+  match k with PSimple XNil | PBatch XNil | PCount => false | _ => true end.
+
+(** Processors whose exporter's Shutdown shows in the exporter-level calls of one operation. *)
+Definition xshut_pids (xs : list (nat * callk)) : list nat :=
+  map fst (filter (fun c => callk_eqb (snd c) KXShutdown) xs).
+
+(** Exporters that must be shut down when the processors [members] are shut down in this order,
+    given those already shut down: each exporter once, at its processor's first Shutdown. *)
+Fixpoint expect_x (hasx : nat -> bool) (members done : list nat) : list nat :=
+  match members with
+  | [] => []
+  | p :: r => if hasx p && negb (mem p done) then p :: expect_x hasx r (p :: done) else expect_x hasx r done
+  end.
+
+Fixpoint nodupb (l : list nat) : bool :=
+  match l with [] => true | x :: r => negb (mem x r) && nodupb r end.
+Definition same_set (a b : list nat) : bool :=
+  forallb (fun p => mem p b) a && forallb (fun p => mem p a) b.
+
 (** * Trace provider *)
 Inductive top :=
 | TReg (p : nat)            (* RegisterSpanProcessor(p) *)
@@ -67,12 +92,13 @@ Record tspec := {
   ts_members : list nat;              (* registered and not unregistered, oldest first *)
   ts_shut : bool;                     (* some Shutdown has returned *)
   ts_spans : list (bool * bool);      (* per started span: recording, ended *)
+  ts_xdone : list nat;                (* processors whose exporter has been shut down *)
   ts_loose : bool                     (* the Shutdown that did the work had an already-cancelled context:
                                          processors honour it and may finish (drain, export, shut their
                                          exporter down) in the background after Shutdown returned *)
 }.
 Definition tspec_init (members : list nat) : tspec :=
-  {| ts_members := members; ts_shut := false; ts_spans := []; ts_loose := false |}.
+  {| ts_members := members; ts_shut := false; ts_spans := []; ts_xdone := []; ts_loose := false |}.
 
 Fixpoint set_ended (i : nat) (l : list (bool * bool)) : list (bool * bool) :=
   match l, i with
@@ -82,11 +108,13 @@ Fixpoint set_ended (i : nat) (l : list (bool * bool)) : list (bool * bool) :=
   end.
 
 Definition with_members (s : tspec) (m : list nat) : tspec :=
-  {| ts_members := m; ts_shut := ts_shut s; ts_spans := ts_spans s; ts_loose := ts_loose s |}.
+  {| ts_members := m; ts_shut := ts_shut s; ts_spans := ts_spans s; ts_xdone := ts_xdone s; ts_loose := ts_loose s |}.
 Definition with_spans (s : tspec) (sp : list (bool * bool)) : tspec :=
-  {| ts_members := ts_members s; ts_shut := ts_shut s; ts_spans := sp; ts_loose := ts_loose s |}.
+  {| ts_members := ts_members s; ts_shut := ts_shut s; ts_spans := sp; ts_xdone := ts_xdone s; ts_loose := ts_loose s |}.
+Definition with_xdone (s : tspec) (d : list nat) : tspec :=
+  {| ts_members := ts_members s; ts_shut := ts_shut s; ts_spans := ts_spans s; ts_xdone := d; ts_loose := ts_loose s |}.
 
-Definition tsstep (s : tspec) (o : top) (ob : obs) : option tspec :=
+Definition tsstep_core (s : tspec) (o : top) (ob : obs) : option tspec :=
   (* "nothing more is exported" after Shutdown returned *)
   let quiet := negb (ts_shut s) || negb (o_wrote ob) || ts_loose s in
   if negb quiet then None else
@@ -128,18 +156,45 @@ Definition tsstep (s : tspec) (o : top) (ob : obs) : option tspec :=
               context the processors may report it *)
            if calls_eqb (o_calls ob) (to_all KShutdown (ts_members s)) &&
               err_in (o_err ob) (if live || Nat.eqb (length (ts_members s)) 0 then [ENil] else [ENil; ECtx])
-           then Some {| ts_members := []; ts_shut := true; ts_spans := ts_spans s;
+           then Some {| ts_members := []; ts_shut := true; ts_spans := ts_spans s; ts_xdone := ts_xdone s;
                         ts_loose := negb live && negb (Nat.eqb (length (ts_members s)) 0) |}
            else None
   end.
 
-Fixpoint tspec_run (s : tspec) (l : list (top * obs)) : bool :=
+(** Exporter-level single shutdown: an exporter's Shutdown is seen at most once ever, only for a processor
+    that has one, and exactly when its processor is shut down for the first time (by Unregister or by the
+    provider's Shutdown); after a cancelled-context Shutdown it may arrive late. *)
+Definition xs_ok (hasx : nat -> bool) (s : tspec) (o : top) (ob : obs) : bool :=
+  let ks := xshut_pids (o_xcalls ob) in
+  let due := match o with
+             | TUnreg p => if ts_shut s || negb (mem p (ts_members s)) then [] else expect_x hasx [p] (ts_xdone s)
+             | TShutdown _ => if ts_shut s then [] else expect_x hasx (ts_members s) (ts_xdone s)
+             | _ => []
+             end in
+  let cancelled := match o with
+                   | TShutdown false => negb (ts_shut s) && negb (Nat.eqb (length (ts_members s)) 0)
+                   | _ => false
+                   end in
+  nodupb ks && forallb (fun p => hasx p && negb (mem p (ts_xdone s))) ks &&
+  (ts_loose s || cancelled || same_set ks due).
+
+Definition tsstep (hasx : nat -> bool) (s : tspec) (o : top) (ob : obs) : option tspec :=
+  if xs_ok hasx s o ob
+  then match tsstep_core s o ob with
+       | Some s' => Some (with_xdone s' (xshut_pids (o_xcalls ob) ++ ts_xdone s))
+       | None => None
+       end
+  else None.
+
+Fixpoint tspec_run (hasx : nat -> bool) (s : tspec) (l : list (top * obs)) : bool :=
   match l with
   | [] => true
-  | (o, ob) :: r => match tsstep s o ob with Some s' => tspec_run s' r | None => false end
+  | (o, ob) :: r => match tsstep hasx s o ob with Some s' => tspec_run hasx s' r | None => false end
   end.
 
-Definition tspec_ok (members : list nat) (l : list (top * obs)) : bool := tspec_run (tspec_init members) l.
+(** [kinds] : the kind of each processor id. *)
+Definition tspec_ok (kinds : nat -> pk) (members : list nat) (l : list (top * obs)) : bool :=
+  tspec_run (fun p => has_x (kinds p)) (tspec_init members) l.
 
 (** "The processors currently registered" after a sequence of operations, as a function of the
     operations alone: registered and not unregistered, nothing once Shutdown has returned. *)
@@ -153,8 +208,6 @@ Fixpoint members_after (m : list nat) (shut : bool) (ops : list top) : list nat 
   end.
 
 (** * Exporters and pipelines of the metric and log providers *)
-Inductive xk := XNil | XStd | XMem.   (* nil exporter / stock stdout exporter writing to a buffer / in-memory *)
-
 Inductive rk := RManual | RPeriodic (x : xk).          (* metric readers *)
 Inductive lk := LSimple (x : xk) | LBatch (x : xk).    (* log processors *)
 
